@@ -523,8 +523,33 @@ fn main() {
         }
     }
 
+    // ---- live slice: the same tables behind a real server, requests over TCP
+    let live = if ctx.prop == "C01" || ctx.prop == "C04" {
+        let alpha = triple_alphabet(16);
+        let mut tables: Vec<Vec<Spec>> = vec![];
+        for k in 1..=3 {
+            for sub in subsets(alpha.len(), k) {
+                tables.push(sub.iter().map(|&i| alpha[i].clone()).collect());
+                if ctx.tier == Tier::Thorough && k >= 2 {
+                    tables.push(sub.iter().rev().map(|&i| alpha[i].clone()).collect());
+                }
+            }
+        }
+        if ctx.tier == Tier::Quick {
+            // a fixed stride through the enumeration (restricted, not sampled)
+            let stride = (tables.len() / 150).max(1);
+            tables = tables.into_iter().step_by(stride).collect();
+        }
+        let st = vh::slices::route_live_slice(&ctx, &tables, &samples);
+        json!({"tables_offered": tables.len(), "tables_served_live": st.tables, "requests": st.requests, "dispatched": st.dispatched, "refused_4xx": st.refused,
+               "oracle": "live response (operation id, Path<..> the handler extracted, status, Allow bytes, handler-run counter) == lookup_route on the same table"})
+    } else {
+        json!(null)
+    };
+
     let states = cn.sets.load(Ordering::Relaxed);
     let cov = json!({
+        "live_slice": live,
         "states": states,
         "transitions": cn.registers.load(Ordering::Relaxed),
         "traces_validated_against_impl": cn.histories.load(Ordering::Relaxed),
